@@ -2,7 +2,8 @@
 //! min_size = 0, keep_alive_time = 0 (a worker exits as soon as it finds no task).
 //! body: `max <n> ; op | op | …`
 //! ops: sub <prog> <prio> | pass | adv <ns> | cancel <k> | stop | wait <k> | max <n> | co | nowait <k> | settle
-//!   task prog steps: S | D<ns> | P | R<v> | C (the running task's coroutine is cancelled)
+//!   task prog steps: S | D<ns> | P | R<v> | C (the running task's coroutine is cancelled) | N (the task submits a
+//!   further task `R77` to its own pool; pass/stop lines then carry ` nest=<task>:<ok|rej>,…`)
 //!   co = a user coroutine through submit_co; nowait = clean_task_result (a dropped join handle);
 //!   settle = marker: everything has had time to finish, the waits that follow must be settled
 //! outs: every op ends with ` run=<running> st=<R|S|X>`;
@@ -28,6 +29,7 @@ pub fn gen(r: &mut Rng, thorough: bool) -> String {
                 let k = r.range(0, 3);
                 let mut steps: Vec<String> = Vec::new();
                 for _ in 0..k { uniq += 1; steps.push(match r.below(3) { 0 => "S".into(), _ => format!("D{}", 1000 * r.range(1, 50) + uniq) }); }
+                if r.chance(1, 5) { let at = r.below(steps.len() as u64 + 1) as usize; steps.insert(at, "N".into()); }
                 steps.push(match r.below(9) { 0 => "P".into(), 1 => "C".into(), _ => format!("R{}", r.range(1, 90)) });
                 ops.push(format!("sub {} {}", steps.join(","), r.pick(&[0i64, 0, 0, 1, -1, 7, i64::MIN, i64::MAX])));
                 nsub += 1;
@@ -53,6 +55,11 @@ pub fn gen(r: &mut Rng, thorough: bool) -> String {
     format!("max {max} ; {}", ops.join(" | "))
 }
 
+fn show_nest(log: &Rc<RefCell<Vec<(usize, bool)>>>) -> String {
+    let v: Vec<(usize, bool)> = log.borrow_mut().drain(..).collect();
+    if v.is_empty() { String::new() } else { format!(" nest={}", v.iter().map(|(t, ok)| format!("{t}:{}", if *ok { "ok" } else { "rej" })).collect::<Vec<_>>().join(",")) }
+}
+
 pub fn exec(body: &str, emit: &mut dyn FnMut(&str)) {
     std::panic::set_hook(Box::new(|_| {}));
     let (cfg, ops) = match body.split_once(" ; ") { Some(x) => x, None => { emit("BADCASE"); return; } };
@@ -60,15 +67,18 @@ pub fn exec(body: &str, emit: &mut dyn FnMut(&str)) {
     verif::set_virtual_now(1000);
     let pool: &'static mut CoroutinePool<'static> = Box::leak(Box::new(CoroutinePool::new("verif-pool".into(), 128 * 1024, 0, max, 0)));
     let started: Rc<RefCell<Vec<usize>>> = Default::default();
-    let mut ids: Vec<u64> = Vec::new();
+    let ids: Rc<RefCell<Vec<u64>>> = Default::default();
+    let nestlog: Rc<RefCell<Vec<(usize, bool)>>> = Default::default();
+    let addr = pool as *const CoroutinePool<'static> as usize;
     for op in ops.split(" | ") {
         let t: Vec<&str> = op.split_whitespace().collect();
         let out = match t.as_slice() {
             ["sub", prog, prio] => {
-                let k = ids.len();
+                let k = ids.borrow().len();
                 let steps: Vec<String> = prog.split(',').map(String::from).collect();
                 let log = started.clone();
                 let prio: i64 = prio.parse().unwrap();
+                let (ids2, nestlog2) = (ids.clone(), nestlog.clone());
                 let r = pool.submit_task(Some(format!("pt{k}")), move |_| {
                     log.borrow_mut().push(k);
                     for st in steps {
@@ -78,30 +88,41 @@ pub fn exec(body: &str, emit: &mut dyn FnMut(&str)) {
                             "D" => { if let Some(s) = SchedulableSuspender::current() { s.delay(Duration::from_nanos(rest.parse().unwrap())); } }
                             "P" => panic!("boom"),
                             "C" => { if let Some(s) = SchedulableSuspender::current() { s.cancel(); } }
+                            "N" => {
+                                // a task of this pool submits to its own pool (the id is the next free index, accepted or not)
+                                let p: &CoroutinePool<'static> = unsafe { &*(addr as *const CoroutinePool<'static>) };
+                                let k2 = ids2.borrow().len();
+                                let log2 = log.clone();
+                                match p.submit_task(Some(format!("pt{k2}")), move |_| { log2.borrow_mut().push(k2); Some(77) }, None, Some(0)) {
+                                    Ok(id) => { ids2.borrow_mut().push(id); nestlog2.borrow_mut().push((k, true)); }
+                                    Err(_) => { ids2.borrow_mut().push(0); nestlog2.borrow_mut().push((k, false)); }
+                                }
+                            }
                             "R" => return Some(rest.parse().unwrap()),
                             _ => {}
                         }
                     }
                     None
                 }, None, Some(prio));
-                match r { Ok(id) => { ids.push(id); "ok".to_string() } Err(_) => { ids.push(0); "rejected".to_string() } }
+                match r { Ok(id) => { ids.borrow_mut().push(id); "ok".to_string() } Err(_) => { ids.borrow_mut().push(0); "rejected".to_string() } }
             }
             ["pass"] => {
                 started.borrow_mut().clear();
                 let r = pool.try_schedule_task();
-                format!("started={}{}", started.borrow().iter().map(|x| x.to_string()).collect::<Vec<_>>().join("."), if r.is_err() { " err" } else { "" })
+                format!("started={}{}{}", started.borrow().iter().map(|x| x.to_string()).collect::<Vec<_>>().join("."), if r.is_err() { " err" } else { "" }, show_nest(&nestlog))
             }
             ["adv", d] => { let _ = verif::advance_virtual_now(d.parse().unwrap()); "-".into() }
-            ["cancel", k] => { let k: usize = k.parse().unwrap(); if k < ids.len() && ids[k] != 0 { CoroutinePool::try_cancel_task(ids[k]); } "-".into() }
-            ["stop"] => { if pool.stop(Duration::ZERO).is_ok() { "ok".into() } else { "err".into() } }
+            ["cancel", k] => { let k: usize = k.parse().unwrap(); let id = ids.borrow().get(k).copied().unwrap_or(0); if id != 0 { CoroutinePool::try_cancel_task(id); } "-".into() }
+            ["stop"] => { let r = pool.stop(Duration::ZERO).is_ok(); format!("{}{}", if r { "ok" } else { "err" }, show_nest(&nestlog)) }
             ["max", n] => { pool.set_max_size(n.parse().unwrap()); "-".into() }
             ["co"] => { if pool.submit_co(|_, ()| Some(1), None, None).is_ok() { "ok".into() } else { "rejected".into() } }
-            ["nowait", k] => { let k: usize = k.parse().unwrap(); if k < ids.len() && ids[k] != 0 { pool.clean_task_result(ids[k]); } "-".into() }
+            ["nowait", k] => { let k: usize = k.parse().unwrap(); let id = ids.borrow().get(k).copied().unwrap_or(0); if id != 0 { pool.clean_task_result(id); } "-".into() }
             ["settle"] => "-".into(),
             ["wait", k] => {
                 let k: usize = k.parse().unwrap();
-                if k >= ids.len() || ids[k] == 0 { "-".to_string() } else {
-                    match pool.wait_task_result(ids[k], Duration::from_millis(15)) {
+                let id = ids.borrow().get(k).copied().unwrap_or(0);
+                if id == 0 { "-".to_string() } else {
+                    match pool.wait_task_result(id, Duration::from_millis(15)) {
                         Ok(Ok(Some(v))) => format!("Ok({v})"),
                         Ok(Ok(None)) => "Ok(none)".into(),
                         Ok(Err(m)) => format!("Err({})", m.replace(' ', "_")),
